@@ -58,7 +58,14 @@ They also already cover: the release build next to the debug build (side effects
 compiled at -O2 with and without sanitizers (wrong const/pure/leaf attributes in headers are found); NDEBUG-dependent
 layouts; objects of 2^16, 2^20 and beyond 2^32 elements; every combination of optional out-parameters; re-use after
 clear; two objects with different node offsets/comparators/element sizes; comparator results of any magnitude;
-allocation failure at every position; other C dialects and system headers included first.  Find something else.
+allocation failure at every position; other C dialects and system headers included first.
+Since the last round they also cover: arguments with side effects (function-like macros that evaluate a parameter twice are
+found); a second compiler and targets where plain char is unsigned; elements whose node sits beyond 64 KiB / 1 MiB, with the
+owner rewriting its payload between calls; managed memory that owns further shared pointers (chains, fans, diamonds); one
+function registered in two roles (constructor = destructor) and objects that differ in exactly one attribute; probes and arguments
+that point INTO the container they are used with; an allocator that refuses every request during operations that should need no
+memory; every way a hash function can come to be in force (kept by NULL, swapped in, after shrink/clear); two stray operands in one
+call; callback results of -1, 1, +-2, even values, values that vanish in narrow fields.  Find something else.
 
 Think about interactions that a test author is unlikely to combine: operation X immediately after operation Y in
 state Z; the second use of an object after it was cleared/moved/swapped; an argument that is legal but unusual; a
